@@ -353,6 +353,8 @@ func runC09(ch chooser.Chooser, st *Stats, mk cacheMaker) *Outcome {
 	}
 	st.Inc("sched:threads_detached", int64(res.Detached))
 	st.Inc("sched:context_switches", int64(res.Switches))
+	st.Inc("fault:preemptive_context_switch_at_a_yield_point", int64(res.Switches))
+	st.Inc("fault:steps_with_a_thread_blocked_on_a_lock", int64(res.Contended))
 	st.Inc("sched:steps_with_a_blocked_thread", int64(res.Contended))
 
 	faulted := env.faultFired()
